@@ -32,7 +32,7 @@ def gen(rng, tier):
     for k in range(1, len(fr)):
         if rng.random() < 0.15:
             fr[k] = np.empty((0, ndim))
-    sr = linkgen.gen_range(rng, ndim, quarter=q, aniso=False)
+    sr = linkgen.gen_range(rng, ndim, quarter=q, aniso=(ndim > 1 and rng.random() < 0.3))
     mem = rng.choice([0, 1, 1, 2, 3])
     big = rng.random() < 0.5
     v = [rng.randint(-1000, 1000) if big else rng.randint(-6, 6) for _ in range(ndim)]
@@ -212,7 +212,7 @@ def _replay(chk, path):
     frames = [np.array(f, dtype=float).reshape(len(f), -1) for f in cj['frames']]
     ndim = len(cj['v'])
     frames = [f.reshape(len(f), ndim) for f in frames]
-    c = dict(frames=frames, sr=Fraction(cj['search_range']), memory=cj['memory'], max_size=cj['max_size'], strategy=cj['link_strategy'],
+    c = dict(frames=frames, sr=(tuple(Fraction(x) for x in cj['search_range']) if isinstance(cj['search_range'], list) else Fraction(cj['search_range'])), memory=cj['memory'], max_size=cj['max_size'], strategy=cj['link_strategy'],
              ndim=ndim, v=cj['v'], tags=cj['tags'])
     v = np.array(c['v'], dtype=float)
 
